@@ -311,12 +311,18 @@ class IncludeIpsNode(NodeProtocol):
             if ips_file.read(5) != b"PATCH":
                 raise RuntimeError(f'{self.ips_file_path} is missing "PATCH" header')
 
-            while ips_file.peek(3)[:3] != b"EOF":
-                block_addr_bytes = struct.unpack(">BH", ips_file.read(3))
-                block_addr = (block_addr_bytes[0] << 16) | block_addr_bytes[1]
-                block_size_word = struct.unpack(">H", ips_file.read(2))
-                block_size = block_size_word[0]
+            while True:
+                block_addr_bytes = ips_file.read(3)
+                if block_addr_bytes == b"EOF":
+                    break
+                block_size_bytes = ips_file.read(2)
+                if len(block_addr_bytes) < 3 or len(block_size_bytes) < 2:
+                    raise RuntimeError(f"{self.ips_file_path} is truncated (incomplete record header)")
+                block_addr = int.from_bytes(block_addr_bytes, "big")
+                block_size = int.from_bytes(block_size_bytes, "big")
                 block = ips_file.read(block_size)
+                if len(block) < block_size:
+                    raise RuntimeError(f"{self.ips_file_path} is truncated (incomplete record data)")
 
                 if self.delta is not None:
                     block_addr += self.delta
